@@ -65,6 +65,9 @@ def manifest():
             na.append({'property_id': pid, 'reason': 'check not built yet (design in DESIGN.md section 5); not claimed'})
             continue
         m = json.load(open(mp))
+        if not m.get('ready') and not m.get('not_applicable'):
+            na.append({'property_id': pid, 'reason': 'check under construction (design in DESIGN.md section 5); not claimed yet'})
+            continue
         if m.get('not_applicable'):
             na.append({'property_id': pid, 'reason': m['not_applicable']})
             continue
